@@ -957,13 +957,13 @@ def case_cluster(fn_name, rng, ctx):
 # =====================================================================
 # invalid matrices
 # =====================================================================
-_INVALID = ["asymmetric", "negative", "nan", "inf", "neg_inf", "f32max", "nonsquare", "one_d", "three_d", "nj_small", "zero_dim"]
+_INVALID = ["asymmetric", "negative", "nan", "inf", "neg_inf", "f32max", "nonsquare", "one_d", "three_d", "nj_small"]
 
 
 def case_invalid(rng, ctx):
     kind = _INVALID[int(rng.integers(len(_INVALID)))]
-    if kind == "zero_dim" and not ctx.allowed("zero_dim_input"):
-        kind = "nonsquare"
+    if rng.random() < 0.01 and ctx.allowed("zero_dim_input"):
+        kind = "zero_dim"
     n = int(rng.integers(4, 13)) if kind != "nj_small" else int(rng.integers(2, 4))
     scale = float(10.0 ** rng.uniform(-3, 4))
     D = gen_matrix(rng, n, str(rng.choice(["metric", "symmetric", "int_ties"])), scale)
